@@ -1,0 +1,212 @@
+// Copyright 2026 The panicparse verification authors. All rights reserved.
+// Use of this source code is governed under the Apache License, Version 2.0
+// that can be found in the LICENSE file.
+
+//go:build verif
+
+// This file only re-exports unexported functions for the verification harness
+// kept outside this repository. It adds no behaviour and is excluded from
+// normal builds.
+
+package stack
+
+import (
+	"go/parser"
+	"go/token"
+	"io"
+	"regexp"
+)
+
+// VerifRegexps returns the regular expressions used by the scanner.
+func VerifRegexps() map[string]*regexp.Regexp {
+	return map[string]*regexp.Regexp{
+		"reRoutineHeader":               reRoutineHeader,
+		"reMinutes":                     reMinutes,
+		"reUnavail":                     reUnavail,
+		"reFile":                        reFile,
+		"reCreated":                     reCreated,
+		"reFunc":                        reFunc,
+		"reRaceOperationHeader":         reRaceOperationHeader,
+		"reRacePreviousOperationHeader": reRacePreviousOperationHeader,
+		"reRaceGoroutine":               reRaceGoroutine,
+		"reModule":                      reModule,
+		"reVersion":                     reVersion,
+		"reMethodSymbol":                reMethodSymbol,
+	}
+}
+
+// VerifReadLines runs the line reader until it reports an error; it returns
+// a copy of every line along with the error returned with it, plus the panic
+// value if the reader panicked.
+func VerifReadLines(in io.Reader, max int) (lines [][]byte, errs []error, panicked interface{}) {
+	defer func() {
+		panicked = recover()
+	}()
+	r := reader{rd: in}
+	for i := 0; i < max; i++ {
+		d, err := r.readLine()
+		lines = append(lines, append([]byte{}, d...))
+		errs = append(errs, err)
+		if err != nil {
+			break
+		}
+	}
+	return
+}
+
+// VerifReaderBufSize returns the size of the line reader's buffer.
+func VerifReaderBufSize() int {
+	return len(reader{}.buf)
+}
+
+// VerifScanner gives access to the line-based state machine.
+type VerifScanner struct {
+	s scanningState
+}
+
+// NewVerifScanner returns a scanner in its initial state.
+func NewVerifScanner() *VerifScanner {
+	return &VerifScanner{s: scanningState{Snapshot: &Snapshot{}, state: looking}}
+}
+
+// Scan feeds one line.
+func (v *VerifScanner) Scan(line []byte) (bool, error) {
+	return v.s.scan(line)
+}
+
+// State returns the numerical state and its name.
+func (v *VerifScanner) State() (int, string) {
+	return int(v.s.state), v.s.state.String()
+}
+
+// Prefix returns the current indentation prefix.
+func (v *VerifScanner) Prefix() []byte {
+	return v.s.prefix
+}
+
+// GoroutineIndex returns the index used by race parsing.
+func (v *VerifScanner) GoroutineIndex() int {
+	return v.s.goroutineIndex
+}
+
+// Goroutines returns the goroutines parsed so far.
+func (v *VerifScanner) Goroutines() []*Goroutine {
+	return v.s.Goroutines
+}
+
+// VerifStateNames returns the name of each scanner state, by value.
+func VerifStateNames() []string {
+	var out []string
+	for i := looking; i <= betweenRaceGoroutines; i++ {
+		out = append(out, i.String())
+	}
+	return out
+}
+
+// VerifAtou exposes atou.
+func VerifAtou(s []byte) (int, bool) { return atou(s) }
+
+// VerifParseArgs exposes parseArgs.
+func VerifParseArgs(line []byte) (Args, error) { return parseArgs(line) }
+
+// VerifTrimCurlyBrackets exposes trimCurlyBrackets.
+func VerifTrimCurlyBrackets(s []byte) (int, []byte, int) { return trimCurlyBrackets(s) }
+
+// VerifTrimLeftSpace exposes trimLeftSpace.
+func VerifTrimLeftSpace(s []byte) []byte { return trimLeftSpace(s) }
+
+// VerifIsFramesElidedLine exposes isFramesElidedLine.
+func VerifIsFramesElidedLine(s []byte) bool { return isFramesElidedLine(s) }
+
+// VerifCallInit exposes Call.init.
+func VerifCallInit(c *Call, srcPath string, line int) { c.init(srcPath, line) }
+
+// VerifPointerBounds returns pointerFloor and pointerCeiling.
+func VerifPointerBounds() (uint64, uint64) { return pointerFloor, pointerCeiling }
+
+// VerifSimilar exposes Signature.similar.
+func VerifSimilar(a, b *Signature, s Similarity) bool { return a.similar(b, s) }
+
+// VerifEqual exposes Signature.equal.
+func VerifEqual(a, b *Signature) bool { return a.equal(b) }
+
+// VerifMerge exposes Signature.merge.
+func VerifMerge(a, b *Signature) *Signature { return a.merge(b) }
+
+// VerifLess exposes Signature.less.
+func VerifLess(a, b *Signature) bool { return a.less(b) }
+
+// VerifNameArguments exposes nameArguments.
+func VerifNameArguments(g []*Goroutine) { nameArguments(g) }
+
+// VerifSplitPath exposes splitPath.
+func VerifSplitPath(p string) []string { return splitPath(p) }
+
+// VerifGuessPaths runs root detection and location update on a snapshot.
+func VerifGuessPaths(s *Snapshot) bool { return s.guessPaths() }
+
+// VerifUpdateLocations exposes Call.updateLocations.
+func VerifUpdateLocations(c *Call, goroot, localgoroot string, localgomods, gopaths map[string]string) bool {
+	return c.updateLocations(goroot, localgoroot, localgomods, gopaths)
+}
+
+// VerifAugment exposes Snapshot.augment.
+func VerifAugment(s *Snapshot) error { return s.augment() }
+
+// VerifExtractTypes parses src, finds the function enclosing the given line
+// the way augmentation does, and returns its argument type names.
+func VerifExtractTypes(src []byte, fn string, line int) ([]string, bool, bool) {
+	fset := token.NewFileSet()
+	parsed, err := parser.ParseFile(fset, "x.go", src, 0)
+	if err != nil {
+		return nil, false, false
+	}
+	p := &parsedFile{lineToByteOffset: lineToByteOffsets(src), parsed: parsed}
+	f, err := p.getFuncAST(fn, line)
+	if err != nil || f == nil {
+		return nil, false, false
+	}
+	t, e := extractArgumentsType(f)
+	return t, e, true
+}
+
+// VerifAugmentCall runs augmentCall on call using the function that encloses
+// the given line of src.
+func VerifAugmentCall(call *Call, src []byte, line int) bool {
+	fset := token.NewFileSet()
+	parsed, err := parser.ParseFile(fset, "x.go", src, 0)
+	if err != nil {
+		return false
+	}
+	p := &parsedFile{lineToByteOffset: lineToByteOffsets(src), parsed: parsed}
+	f, err := p.getFuncAST(call.Func.Name, line)
+	if err != nil || f == nil {
+		return false
+	}
+	augmentCall(call, f)
+	return true
+}
+
+// VerifPkgURL exposes pkgURL.
+func VerifPkgURL(c *Call) string { return string(pkgURL(c)) }
+
+// VerifSrcURL exposes srcURL.
+func VerifSrcURL(c *Call) string { return string(srcURL(c)) }
+
+// VerifSymbol exposes symbol.
+func VerifSymbol(f *Func) string { return string(symbol(f)) }
+
+// VerifFuncClass exposes funcClass.
+func VerifFuncClass(c *Call) string { return string(funcClass(c)) }
+
+// VerifEscape exposes escape.
+func VerifEscape(s string) string { return string(escape(s)) }
+
+// VerifSplitTag exposes splitTag.
+func VerifSplitTag(s string) (string, string, string) {
+	a, b, c := splitTag(s)
+	return a, b, string(c)
+}
+
+// VerifIndexHTML returns the HTML template source.
+func VerifIndexHTML() string { return indexHTML }
